@@ -10,6 +10,7 @@ import (
 	"encoding/json"
 	"fmt"
 	"os"
+	"strconv"
 	"strings"
 	"sync"
 	"time"
@@ -156,4 +157,88 @@ func chainlabEncode(v types.EncoderTo) string {
 	v.EncodeTo(e)
 	e.Flush()
 	return hex.EncodeToString(buf.Bytes())
+}
+
+// ---- structural classification of one stall mechanism ---------------------
+//
+// A v1 block has no relay that carries it: RelayV2Header is re-relayed when the
+// header attaches to the receiver's tip (no fetch, no resync) and outlines
+// exist for v2 blocks only. A node that already marked its peers as synced is
+// not polled again by the sync loop, so it never obtains a v1 block that is
+// exactly one above its tip and that a peer acquired later. (A peer two or
+// more blocks ahead announces a header that does NOT attach, which flips it to
+// unsynced and triggers a fetch.)
+
+// peerView is what a stuck node knows about one connected peer.
+type peerView struct {
+	Addr   string
+	Synced bool
+	Err    string
+	Tip    *chainlab.Node // nil if the peer is not an audited honest node
+}
+
+// stuckOnUnpropagatedV1Tip reports whether a node stuck at tip (winner being
+// the tip it should have reached) matches the mechanism above: (a) tip is an
+// ancestor of winner and every block between them is a v1 block; (b) every
+// connected peer is marked synced and has no error; (c) at least one peer is
+// ahead of the node on the winner's chain, and every peer that is ahead is
+// exactly one (v1) block ahead, so that its announcements attach to the node's
+// tip.
+func stuckOnUnpropagatedV1Tip(tip, winner *chainlab.Node, peers []peerView) bool {
+	if tip == nil || winner == nil || tip == winner || len(peers) == 0 {
+		return false
+	}
+	if tip.Height >= winner.Height || winner.Ancestor(tip.Height) != tip {
+		return false
+	}
+	for x := winner; x != tip; x = x.Parent {
+		if x.Block.V2 != nil {
+			return false
+		}
+	}
+	ahead := 0
+	for _, p := range peers {
+		if !p.Synced || p.Err != "" {
+			return false
+		}
+		if p.Tip == nil || p.Tip == tip || p.Tip.Height <= tip.Height || p.Tip.Ancestor(tip.Height) != tip {
+			continue // not ahead of us on our own chain
+		}
+		if p.Tip.Parent != tip {
+			return false // two or more ahead: its header would not attach and force a resync
+		}
+		ahead++
+	}
+	return ahead > 0
+}
+
+func peerViews(n *p2plab.Node, byAddr map[string]*p2plab.Node) []peerView {
+	var out []peerView
+	for _, p := range n.S.Peers() {
+		pv := peerView{Addr: p.Addr(), Synced: p.Synced()}
+		if err := p.Err(); err != nil {
+			pv.Err = err.Error()
+		}
+		if o := byAddr[p.Addr()]; o != nil {
+			pv.Tip = o.Mon.Tip()
+		}
+		out = append(out, pv)
+	}
+	return out
+}
+
+// parseStreamReplay understands "--replay stream:<n>[:<special>]".
+func parseStreamReplay(replay string) (stream uint64, special string, ok bool) {
+	if !strings.HasPrefix(replay, "stream:") {
+		return 0, "", false
+	}
+	parts := strings.SplitN(strings.TrimPrefix(replay, "stream:"), ":", 2)
+	n, err := strconv.ParseUint(parts[0], 10, 64)
+	if err != nil {
+		return 0, "", false
+	}
+	if len(parts) == 2 {
+		special = parts[1]
+	}
+	return n, special, true
 }
